@@ -9,6 +9,50 @@ BASELINE = ("cd /repo && env -u GSCRIB_VERIF /venv/bin/python -m pytest -ra -q -
 
 # id -> (technique, level text, level note, design ref)
 CLAIMED = {
+    "C14": (
+        "Lean 4 theorems over a hand-written model of the writer list and FileWriter sessions (induction over every history of "
+        "add/remove/write/flush/teardown/disconnect, explicit UTF-8 encoder/decoder) + differential correspondence on real "
+        "files and streams",
+        "Proof: C14_no_duplicates, C14_registered, C14_same_bytes, C14_delivery(_from), C14_session, C14_content_invariant, "
+        "C14_file_content, C14_utf8_roundtrip, C14_teardown(_run) for every history and every mix of writer kinds; "
+        "correspondence on path files, BytesIO/StringIO, buffered and tty doubles, custom writers, all line endings, non-ASCII text.",
+        "Trusted: Lean kernel (propext, Classical.choice, Quot.sound), model tied by correspondence, Python harness; OS file "
+        "buffering and non-UTF-8 text streams are outside the model; a user-supplied buffered file object is only flushed by its owner.",
+        "DESIGN.md section 7 / C14",
+    ),
+    "C15": (
+        "Lean 4 invariant proofs over a labelled transition system (sender = printcore._sendnext/_listen/_send, FIFO channels, "
+        "Marlin-style firmware) for ALL schedules and fault patterns + differential correspondence against the real threaded "
+        "printcore on a step-controlled fake serial port",
+        "Proof: C15_frame, C15_frame_run, C15_accept_prefix_partial (safety: accepted log always a prefix of the job, every "
+        "schedule, every fault pattern sparing the reset or e0 = 0), C15_resend(_continue), C15_complete_nofault, "
+        "C15_complete_partial (completeness under no SplitTriple); the full completeness claim is false on the real code: two "
+        "recorded findings with Lean decide witnesses replayed on the implementation every run.",
+        "Trusted: Lean kernel, model tied by correspondence at the granularity of two atomic steps per thread (races inside a "
+        "step, e.g. non-atomic resendfrom += 1, are not represented), Python firmware twin, pyserial replaced by a fake port.",
+        "DESIGN.md section 7 / C15",
+    ),
+    "C16": (
+        "Lean 4 invariant proofs over a transition system of caller / print thread / sender thread / reader thread / device (13 "
+        "actions, write() split into its real steps) for every interleaving + differential correspondence against the real "
+        "threaded SerialWriter/SocketWriter with harness-controlled replies and injected delays",
+        "Proof: C16_order_once, C16_sync_partial, C16_sync, C16_single_probe_no_backlog, C16_sync_single_probe, "
+        "C16_error_surfaces, C16_no_spurious_error, C16_connect_clean, C16_disconnect_wait for every action list; the residual "
+        "handshake-backlog defect is a recorded finding with two decide witnesses.",
+        "Trusted: as C15. Out of scope: Grbl greeting, Resend lines mid-session, writes after a socket loss (liveness).",
+        "DESIGN.md section 7 / C16",
+    ),
+    "C18": (
+        "Lean 4 theorems over a hand-written scanner automaton equivalent to VALUE_PATTERN.findall, _parse_message and "
+        "_on_device_message, with a renderer for the four report families (induction over report fields and report sequences) "
+        "+ differential correspondence (scanner vs Python re on >= 1e5 strings per run, reports through a real PrintrunWriter)",
+        "Proof: C18_scan_report, C18_deliver_report, C18_first_wins, C18_report_ack, C18_sequence, C18_error_keeps, "
+        "C18_dispatch_parse for every well-formed report of the Marlin position / temperature (with or without ok), Grbl status "
+        "and probe families, every prior reading table and every letter.",
+        "Trusted: Lean kernel, the regex model (validated against re on every run, not proved), model tied by correspondence, "
+        "harness; reports are ASCII.",
+        "DESIGN.md section 7 / C18",
+    ),
     "C19": (
         "Lean 4 theorems over a hand-written model of the heightmap logic (range test and orientation, barycentric "
         "interpolation over Q, Bresenham line, linspace, _filter_points by induction) with the spline and the triangulation "
